@@ -122,6 +122,13 @@ def exprs(depth=3):
         st.builds(lambda f, n, a: '%s(a, (%s := %s))' % (f, n, a), NAMES, st.sampled_from(['x', 'y', 'n']), sub),
         st.builds(lambda f, n, a, b: '%s(%s := %s, %s)' % (f, n, a, b), NAMES, st.sampled_from(['x', 'y', 'n']), sub, sub),
         st.builds(lambda a, b: '[(lambda: (q := %s)) for i in %s]' % (a, b), sub, NAMES),
+        # unparenthesised assignment expressions (sets: 3.9+, subscripts: 3.10+; the reference decides)
+        st.builds(lambda f, n, a: '%s[%s := %s]' % (f, n, a), NAMES, st.sampled_from(['x', 'y', 'n']), sub),
+        st.builds(lambda f, n, a: '%s[%s := %s, 1]' % (f, n, a), NAMES, st.sampled_from(['x', 'y', 'n']), sub),
+        st.builds(lambda n, a, b: '{%s := %s, %s}' % (n, a, b), st.sampled_from(['x', 'y', 'n']), sub, sub),
+        st.builds(lambda n, a, b: '{%s, %s := %s}' % (b, n, a), st.sampled_from(['x', 'y', 'n']), sub, sub),
+        st.builds(lambda n, a: '{%s := %s for i in y}' % (n, a), st.sampled_from(['x', 'y', 'n']), sub),
+        st.builds(lambda n, a: '[%s := %s, 2]' % (n, a), st.sampled_from(['x', 'y', 'n']), sub),
         st.builds(lambda a, b: '[*%s, *%s][0]' % (a, b), NAMES, NAMES),
         st.builds(lambda f, a, b: '%s(%s, k=%s)' % (f, a, b), NAMES, sub, sub),
         st.builds(lambda f, a: '%s(*%s, **%s)' % (f, a, a), NAMES, NAMES),
